@@ -28,6 +28,7 @@ import (
 	"net/http"
 	"net/http/httptest"
 	"os"
+	"os/exec"
 	"path/filepath"
 	"reflect"
 	"sort"
@@ -210,6 +211,10 @@ func c07Alphabet(quick bool) []c07Elem {
 		"/livesim2/drm_EZDRM-2-keys-cbcs-test/testpic_2s/V300/init.mp4?nowMS=610000",
 		"/livesim2/drm_EZDRM-2-keys-cbcs-test/testpic_2s/A48/init.mp4?nowMS=610000",
 		"/livesim2/eccp_cbcs/testpic_2s/V300/init.mp4?nowMS=610000",
+		// the same representation id and init name in another asset, under the same DRM names
+		"/livesim2/drm_EZDRM-1-key-cbcs-test/testpic_8s/V300/init.mp4?nowMS=610000",
+		"/livesim2/drm_EZDRM-2-keys-cbcs-test/testpic_8s/A48/init.mp4?nowMS=610000",
+		"/livesim2/eccp_cbcs/testpic_8s/V300/init.mp4?nowMS=610000",
 		"/livesim2/timesubsstpp_en,sv/testpic_2s/timestpp-en/init.mp4?nowMS=610000",
 		// media: 300 and 304 map to the same VoD file one loop apart
 		"/livesim2/testpic_2s/V300/300.m4s?nowMS=610000",
@@ -403,6 +408,33 @@ func c07NewServer() (*Server, error) {
 	return srv, nil
 }
 
+// TestVerifC07FreshChild is run by TestVerifC07 in a process of its own: it serves the alphabet in reverse order,
+// every request on a server of its own, and prints what each request was answered.
+func TestVerifC07FreshChild(t *testing.T) {
+	if os.Getenv("VERIF_C07_CHILD") == "" {
+		t.Skip("only as a child process of TestVerifC07")
+	}
+	http.DefaultClient.Transport = c16RT{}
+	sigma := c07Alphabet(vh.Quick())
+	opts := vrt.RunOpts{Race: false, AllowBlockedDaemons: true, NoUnlockPoints: true, StartNS: 610000 * 1e6, WatchdogS: 120, EndWithMain: true}
+	for i := len(sigma) - 1; i >= 0; i-- {
+		e := sigma[i]
+		if !e.cmp {
+			continue
+		}
+		srv, err := c07NewServer()
+		if err != nil {
+			t.Fatalf("server: %v", err)
+		}
+		var r c07Resp
+		x := vrt.Run(nil, opts, func(s *vrt.Sched) { r = c07Serve(srv, e, false) })
+		if len(x.Fails) > 0 || x.Hung {
+			continue // judged in the parent, which then misses this answer
+		}
+		fmt.Printf("C07FRESH\t%s\t%s\n", e.name, r.String())
+	}
+}
+
 func TestVerifC07(t *testing.T) {
 	rep := vh.NewReport("C07")
 	defer rep.Write()
@@ -449,6 +481,41 @@ func TestVerifC07(t *testing.T) {
 		}
 	}
 	rep.Extra["alphabet"] = len(sigma)
+	// ---- fresh(r) again in a process of its own (this test binary started once more) and in the reverse order,
+	// again every request on a server of its own: state kept outside the server instance (a package-level
+	// cache) makes this process's answers a matter of the order of the alphabet, and every later comparison
+	// in this process would agree with them; in the child process the other order is the history
+	if sh == 0 {
+		cmd := exec.Command(os.Args[0], "-test.run", "^TestVerifC07FreshChild$", "-test.count=1")
+		cmd.Env = append(os.Environ(), "VERIF_C07_CHILD=reverse")
+		out, err := cmd.Output()
+		got := map[string]string{}
+		for _, ln := range strings.Split(string(out), "\n") {
+			if f := strings.SplitN(ln, "\t", 3); len(f) == 3 && f[0] == "C07FRESH" {
+				got[f[1]] = f[2]
+			}
+		}
+		if err != nil && len(got) == 0 {
+			t.Fatalf("child process for the reverse-order pass: %v (%d bytes of output)", err, len(out))
+		}
+		for i, e := range sigma {
+			if !e.cmp {
+				continue
+			}
+			rep.AddExecs(1)
+			rep.Hit("C07.history")
+			g, ok := got[e.name]
+			if !ok {
+				rep.Violate("C07.crash", "child-process-died:"+c07Kind(e.name), fmt.Sprintf("the process serving the alphabet in reverse order gave no answer for %s (%v)", e.name, err), map[string]any{"request": e.name})
+				break
+			}
+			if g != fresh[i].String() {
+				rep.Violate("C07.history", "response-depends-on-process-history:"+c07Kind(e.name), fmt.Sprintf("%s answers %s on a fresh server in a process that served the alphabet in reverse order (each request on a server of its own), %v in this process (forward order): state outside the server instance", e.name, g, fresh[i]),
+					map[string]any{"request": e.name})
+			}
+		}
+		rep.Extra["reverse_order_process_answers"] = len(got)
+	}
 
 	// ---- H1: explicit-state search keyed by the state digest (worker 0)
 	if sh == 0 {
